@@ -25,6 +25,7 @@ Inductive wcmd :=
 | WBase (c : cmd)
 | WFs (p : str) (n : node)
 | WSec (s : secset)
+| WPerms (fp dp : N)                  (* econf_requirePermissions on top of the current settings *)
 | WConfDirs (l : list str)
 | WCallback (p : cbpolicy)
 | WNewOpts (o : nat) (opts : option str)
@@ -62,6 +63,10 @@ Definition wstep (w : world) (c : wcmd) : world * out :=
   | WBase c' => let '(s', r) := step (w_store w) c' in (set_store w s', r)
   | WFs p n => (mkW (w_store w) (tput (w_tree w) (squeeze p) n) (w_g w) (w_cb w), ORc ECONF_SUCCESS)
   | WSec s => (set_g w (mkG s (g_conf_dirs (w_g w)) (g_errfile (w_g w)) (g_errline (w_g w))), ORc ECONF_SUCCESS)
+  | WPerms fp dp =>
+      let s := g_sec (w_g w) in
+      (set_g w (mkG (mkSec (sec_owner s) (sec_group s) (sec_nolinks s) (Some (fp, dp)))
+                    (g_conf_dirs (w_g w)) (g_errfile (w_g w)) (g_errline (w_g w))), ORc ECONF_SUCCESS)
   | WConfDirs l => (set_g w (mkG (g_sec (w_g w)) l (g_errfile (w_g w)) (g_errline (w_g w))), ORc ECONF_SUCCESS)
   | WCallback p => (mkW (w_store w) (w_tree w) (w_g w) p, ORc ECONF_SUCCESS)
   | WNewOpts o opts =>
